@@ -294,6 +294,64 @@ func (c *Ctx) own12() {
 			}
 		}
 	}
+	// BigMessage.ReadAll "returns the message in a new/dedicated buffer": what it
+	// returns is made by that call, not kept in (or taken from) a field — a
+	// buffer reused across calls turns the previous message into the next one
+	// under the application's hands
+	if ra := c.Fn("OWN-12", "(*BigMessage).ReadAll"); ra != nil {
+		fr := c.acc("OWN-12", ra, "result-is-memory-made-by-this-call")
+		for _, b := range ra.Blocks {
+			for _, ins := range b.Instrs {
+				ret, ok := ins.(*ssa.Return)
+				if !ok || len(ret.Results) == 0 || !isByteSlice(ret.Results[0].Type()) {
+					continue
+				}
+				v := stripConv(ret.Results[0])
+				if k, isK := v.(*ssa.Const); isK && k.Value == nil {
+					fr.pass()
+					continue
+				}
+				var fromField func(v ssa.Value, d int) bool
+				fromField = func(v ssa.Value, d int) bool {
+					if d > 8 {
+						return false
+					}
+					switch x := stripConv(v).(type) {
+					case *ssa.Slice:
+						return fromField(x.X, d+1)
+					case *ssa.Phi:
+						for _, e := range x.Edges {
+							if fromField(e, d+1) {
+								return true
+							}
+						}
+					case *ssa.UnOp:
+						if _, isFA := x.X.(*ssa.FieldAddr); isFA {
+							return true
+						}
+						if al, isAl := x.X.(*ssa.Alloc); isAl && al.Referrers() != nil {
+							for _, r := range *al.Referrers() {
+								if st, isSt := r.(*ssa.Store); isSt && st.Addr == ssa.Value(al) && fromField(st.Val, d+1) {
+									return true
+								}
+							}
+						}
+					case *ssa.Call:
+						if bl, isB := x.Call.Value.(*ssa.Builtin); isB && bl.Name() == "append" && len(x.Call.Args) > 0 {
+							return fromField(x.Call.Args[0], d+1)
+						}
+					}
+					return false
+				}
+				if fromField(v, 0) {
+					fr.failAt(c.P.Pos(ret.Pos()), "ReadAll returns %s, memory that a field of the client keeps: the next big message is read into the slice the application still holds", Expr(v))
+				} else {
+					fr.pass()
+				}
+			}
+		}
+		fr.done(1, "no returned slice derives from a field load")
+	}
 	stores.done(9, "every store derives from the field, fresh memory or nil")
 	sent.done(4, "every writeNoWait argument is a load of the field")
 	foreign.done(0, "no function other than the owners appends to, copies into or stores through a load of the field")
